@@ -26,6 +26,9 @@ pub enum Ev {
   Announce(u8, u8, bool),
   /// SEDP dispose of an endpoint
   Dispose(u8, u8, bool),
+  /// the application creates a second DataReader (true: DataWriter) on the topic now: it must be matched with
+  /// exactly the endpoints announced at this moment, and follow every later change
+  LateLocal(bool),
 }
 
 const TOPIC: &str = "c11_t";
@@ -138,6 +141,7 @@ impl Model for M {
     let mut violation = None;
     let mut obs = vec![];
     let mut comparisons = 0u64;
+    let (mut late_r, mut late_w) = (false, false);
     for (step, ev) in hist.iter().enumerate() {
       let last_step = step + 1 == hist.len();
       let mut ann_incompat_w: Option<(u8, u8)> = None; // incompatible writer announced (seen by local reader)
@@ -198,6 +202,15 @@ impl Model for M {
           st.insert((*p, *k, *w), St::Absent);
           parked.remove(&(*p, *k, *w));
         }
+        Ev::LateLocal(writer) => {
+          if *writer {
+            sim.add_local_writer(2, TOPIC, &rel);
+            late_w = true;
+          } else {
+            sim.add_local_reader(9, TOPIC, &rel);
+            late_r = true;
+          }
+        }
       }
       sim.drain_participant_status();
       let r_new: BTreeSet<(u8, u8)> = sim.reader_matches(7).into_iter().collect();
@@ -212,8 +225,27 @@ impl Model for M {
       comparisons += 2;
       let vr = check_side('R', ev, &r_old, &r_new, &r_ev, &sel(true, St::Announced), &sel(true, St::Maybe), &mut r_total, ann_incompat_w);
       let vw = check_side('W', ev, &w_old, &w_new, &w_ev, &sel(false, St::Announced), &sel(false, St::Maybe), &mut w_total, ann_incompat_r);
+      // the endpoints created late: matched with what is announced now, whatever happened before their creation
+      let mut vl = None;
+      for (is_writer, exists) in [(false, late_r), (true, late_w)] {
+        if !exists {
+          continue;
+        }
+        comparisons += 1;
+        let got: BTreeSet<(u8, u8)> = if is_writer { sim.writer_matches(2) } else { sim.reader_matches(9) }.into_iter().collect();
+        let definite = sel(!is_writer, St::Announced);
+        let maybe = sel(!is_writer, St::Maybe);
+        let what = if is_writer { "writer" } else { "reader" };
+        if let Some(d) = definite.iter().find(|d| !got.contains(d)) {
+          vl = Some(Violation { key: format!("C11:late-local:missing-match:{what}"), msg: format!("after {ev:?}: the local {what} created later is matched with {got:?}, but {d:?} is announced, compatible and on the topic") });
+        } else if let Some(n) = got.iter().find(|n| !definite.contains(n) && !maybe.contains(n)) {
+          vl = Some(Violation { key: format!("C11:late-local:stale-match:{what}"), msg: format!("after {ev:?}: the local {what} created later is matched with {got:?}, but {n:?} is not a currently announced compatible endpoint (announced: {definite:?})") });
+        }
+      }
+      let _ = if late_r { sim.reader_events(9) } else { vec![] };
+      let _ = if late_w { sim.writer_events(2) } else { vec![] };
       if last_step {
-        violation = vr.or(vw);
+        violation = vr.or(vw).or(vl);
         // the distractor reader on the other topic only ever matches the writer on that topic
         let exp_other: Vec<(u8, u8)> = if st[&(1, 3, true)] == St::Announced { vec![(1, 3)] } else { vec![] };
         if violation.is_none() && other_matches != exp_other && st[&(1, 3, true)] != St::Maybe {
@@ -234,13 +266,21 @@ impl Model for M {
     }
     for (e, _, _) in &eps {
       if e.0 < self.nparts {
+        // SEDP data (announcements and disposes alike) only arrives from participants that are currently known:
+        // the built-in readers have no proxy for the others
         if known[e.0 as usize] {
           next.push(Ev::Announce(e.0, e.1, e.2));
+          next.push(Ev::Dispose(e.0, e.1, e.2));
         }
-        next.push(Ev::Dispose(e.0, e.1, e.2));
       }
     }
-    let digest = format!("{} ## known{:?} to{:?} st{:?} parked{:?} tot{}/{}", sim.digest(), known, timed_out, st, parked, r_total, w_total);
+    if !late_r {
+      next.push(Ev::LateLocal(false));
+    }
+    if !late_w {
+      next.push(Ev::LateLocal(true));
+    }
+    let digest = format!("{} ## known{:?} to{:?} st{:?} parked{:?} tot{}/{} late{}{}", sim.digest(), known, timed_out, st, parked, r_total, w_total, late_r, late_w);
     Outcome { digest, violation, next, obs, comparisons }
   }
 }
